@@ -352,6 +352,9 @@ pub enum Op {
   OpenReader { r: usize },
   /// search again on a kept reader: must still show its snapshot
   CheckReader { r: usize },
+  /// `inner` (a commit or a compaction) runs with one storage fault armed at
+  /// its `at`-th primitive; when it fails it is retried on healthy storage
+  Faulty { inner: Box<Op>, at: u32, kind: String },
 }
 
 impl Op {
@@ -368,6 +371,7 @@ impl Op {
       Op::Relocate { .. } => "relocate",
       Op::OpenReader { .. } => "open_reader",
       Op::CheckReader { .. } => "check_reader",
+      Op::Faulty { .. } => "faulty",
     }
   }
   pub fn short(&self) -> String {
@@ -383,6 +387,7 @@ impl Op {
       Op::Relocate { original, naming } => format!("relocate(original={}, naming={})", original, naming),
       Op::OpenReader { r } => format!("r{}=reader()", r),
       Op::CheckReader { r } => format!("r{}.search()", r),
+      Op::Faulty { inner, at, kind } => format!("{} with {} at primitive {}", inner.short(), kind, at),
     }
   }
   pub fn handle(&self) -> Option<usize> {
@@ -783,6 +788,7 @@ impl Session {
       Op::Relocate { .. } => false,
       Op::OpenReader { r } => self.index.is_some() && !self.readers.contains_key(r),
       Op::CheckReader { r } => self.readers.contains_key(r),
+      Op::Faulty { .. } => false,
     }
   }
 
@@ -859,6 +865,7 @@ impl Session {
         }
       }
       Op::CheckReader { .. } => Outcome::Ok,
+      Op::Faulty { .. } => Outcome::Skipped,
     }
   }
 }
